@@ -146,9 +146,23 @@ def run_sym(case):
         rot2 = (al, be + 2 * math.pi, ga - 2 * math.pi)
     s2, _ = _axisym(case, rot2, center)
     kw = gen.optics_kwargs(o)
-    a = calc_field(det, s1, theory=Tmatrix(), **kw).values
-    b = calc_field(det, s2, theory=Tmatrix(), **kw).values
     labels = [case["kind"], case["rel"]]
+    res = []
+    for sx in (s1, s2):
+        try:
+            res.append(calc_field(det, sx, theory=Tmatrix(), **kw).values)
+        except Exception as e:
+            if type(e).__name__ != "InvalidScatterer" or "did not converge" not in str(e):
+                raise
+            res.append(None)
+    if res[0] is None and res[1] is None:
+        # documented outcome (T-matrix convergence not reached for this size/shape/index): counted
+        return Outcome(None, False, labels + ["documented_nonconvergence"], skipped=True)
+    if res[0] is None or res[1] is None:
+        # the T-matrix is computed in the particle frame: whether it converges cannot depend on the orientation
+        return Outcome(failure("convergence_depends_on_orientation", "%s: InvalidScatterer(non-convergence) for one orientation only (%s)"
+                               % (case["kind"], case["rel"]), rel=case["rel"]), True, labels)
+    a, b = res
     if not (np.all(np.isfinite(a)) and np.all(np.isfinite(b))):
         return Outcome(failure("nonfinite", "Tmatrix field not finite", kind=case["kind"]), True, labels)
     err = np.abs(a - b).max() / np.abs(a).max()
